@@ -279,8 +279,13 @@ func cmdCheck(args []string) int {
 		agg.Replays += r.Replays
 		agg.Steps += r.Steps
 		agg.Quiescent += r.Quiescent
-		agg.Evals += r.Evaluations
-		agg.Distinct += r.DistinctNontrivial
+		if units[i].Kind == "pure" {
+			agg.Evals += r.Evaluations
+			agg.Distinct += r.DistinctNontrivial
+		} else {
+			agg.Evals += r.Transitions
+			agg.Distinct += r.States
+		}
 		if r.MaxDepth > agg.MaxDepth {
 			agg.MaxDepth = r.MaxDepth
 		}
@@ -400,9 +405,6 @@ func cmdCheck(args []string) int {
 	evals, distinct := agg.Evals, agg.Distinct
 	rule := "pure enumerations: every input of the stated finite alphabet is generated once; distinct_nontrivial counts distinct inputs on which the oracle actually compared something."
 	if agg.States > 0 {
-		// For BFS checks: evaluations = transitions executed on the real code, distinct = distinct canonical states.
-		evals += agg.Transitions
-		distinct += agg.States
 		rule = "BFS: evaluations = transitions executed on the real code (each applies one action to a world replayed from scratch); distinct_nontrivial = distinct canonical states (hash of API objects, caches, pending events, queues, clock, monitor memory). " + rule
 	}
 	cov["evaluations"] = evals
